@@ -583,7 +583,9 @@ func runParent(c *Check, tier string, seed int64) {
 	}
 	os.MkdirAll(filepath.Join(VerifDir, "evidence"), 0o755)
 	eb, _ := json.MarshalIndent(ev, "", " ")
-	os.WriteFile(filepath.Join(VerifDir, "evidence", c.ID+".json"), eb, 0o644)
+	if strings.HasPrefix(c.ID, "C") {
+		os.WriteFile(filepath.Join(VerifDir, "evidence", c.ID+".json"), eb, 0o644)
+	}
 	fmt.Printf("check %s tier=%s: evaluations=%d states=%d transitions=%d traces=%d nontrivial=%d exhaustive=%v violations(new)=%d known=%d wall=%.1fs\n",
 		c.ID, tier, total.Evaluations, total.States, total.Transitions, total.Traces, len(nontriv), total.Exhaustive, newViol, len(knownHit), time.Since(start).Seconds())
 	os.Exit(exit)
